@@ -6,7 +6,7 @@
 (* in-memory task table, taken after the request.  The acceptor keeps the previous digests and         *)
 (* requires the contract of HttpApi.tla; which of 200 / 400 / 500 a POST gets is left open except      *)
 (* that the semantically invalid creates named by the statement must not get 200.                      *)
-(* Known findings (env KF_<name>): C19_DOT_NAME_PANIC, C19_RPCPOS_ORPHAN_CKPT.                         *)
+(* Known findings (env KF_<name>): C19_DOT_NAME_PANIC, C19_RPCPOS_ORPHAN_CKPT, C19_NONUTF8_LABEL_PANIC. *)
 EXTENDS HttpApi, IOUtils, SequencesExt
 
 Traces == ndJsonDeserialize(IOEnv.TRACE_FILE)
@@ -35,12 +35,15 @@ TStep ==
           ELSE /\ dig # <<>> /\ e.i = l        \* the trace is complete: no event lost
                \* Total: a well-formed JSON answer, 405 exactly for the non-POST methods, no crashed handler
                \* (the known finding explains a crash only for a dotted name, or after one was accepted)
-               /\ IF wellFormed THEN TRUE ELSE ((e.op \in {"create_dot", "c_dotmap"} \/ dotSeen) /\ Known("C19_DOT_NAME_PANIC", FALSE))
+               /\ IF wellFormed THEN TRUE
+                  ELSE IF ~e.body_utf8 THEN Known("C19_NONUTF8_LABEL_PANIC", FALSE)     \* only explains bodies that are not UTF-8
+                  ELSE ((e.op \in {"create_dot", "c_dotmap"} \/ dotSeen) /\ Known("C19_DOT_NAME_PANIC", FALSE))
                /\ wellFormed => IF e.method = "POST" THEN e.code \in {200, 400, 500} ELSE e.code = 405
                \* InvalidRejected
                /\ (wellFormed /\ e.must_reject) => e.code # 200
                \* RejectIsNoop: whatever was not answered with 200 changed nothing
-               /\ (~wellFormed \/ e.code # 200) =>
+               \* (a crash on a non-UTF-8 task id happens after the task was stored: part of the same known finding)
+               /\ ((~wellFormed \/ e.code # 200) /\ ~(~wellFormed /\ ~e.body_utf8 /\ KFOn("C19_NONUTF8_LABEL_PANIC"))) =>
                      /\ dig[1] = e.d_tasks /\ dig[3] = e.d_book /\ dig[4] = e.d_mem
                      /\ IF dig[2] = e.d_ckpt THEN TRUE ELSE (e.op = "c_badrpcpos" /\ Known("C19_RPCPOS_ORPHAN_CKPT", FALSE))
                /\ dig' = DigOf(e)
